@@ -65,10 +65,11 @@ ClaimBits == {"labU", "labR", "annU", "annR", "ext", "compRef", "compSel", "revR
 ClaimGroup(b) ==
   CASE b = "labU"    -> {L("app", "c-app"), L("example.org/team", "c-team"), L("example.org/k8s.io", "c-tricky")}
     [] b = "labR"    -> {L("kubernetes.io/arch", "c-arch"), L("app.kubernetes.io/name", "c-appname"),
-                         L("k8s.io/x", "c-k8s"), L("sigs.k8s.io/y", "c-sigs")}
+                         L("k8s.io/x", "c-k8s"), L("sigs.k8s.io/y", "c-sigs"), L("node.alpha.kubernetes.io/ttl", "c-deep")}
     [] b = "labL"    -> {L("notkubernetes.io/x", "c-look1"), L("k8s.io", "c-look2"), A("notkubernetes.io/x", "c-look3")}
     [] b = "annU"    -> {A("note", "c-note"), A("example.org/a", "c-a")}
-    [] b = "annR"    -> {A("kubectl.kubernetes.io/last-applied-configuration", "c-lac"), A("internal.k8s.io/z", "c-z")}
+    [] b = "annR"    -> {A("kubectl.kubernetes.io/last-applied-configuration", "c-lac"), A("internal.k8s.io/z", "c-z"),
+                         A("service.beta.kubernetes.io/lb", "c-deep1"), A("internal.config.k8s.io/w", "c-deep2")}
     [] b = "ext"     -> {A(ExtNameKey, "c-ext")}
     [] b = "compRef" -> {S2("compositionRef", "name", "c-comp")}
     [] b = "compSel" -> {S3("compositionSelector", "matchLabels", "sel", "c-sel")}
